@@ -369,6 +369,16 @@ def run_smt_roundtrip(ctx, n):
             res = parse_term(env, decls, text)
             ctx.case(None if not f.args() else (pname, text))
             ctx.count("smt_roundtrip_" + pname)
+            try:
+                if any(("|" in nm or "\\" in nm) for nm in _all_names(f)):
+                    # pySMT's own \| and \\ escapes: no such symbol exists in SMT-LIB, the standard lexer of the models
+                    # cannot read the text
+                    ctx.count("k_rt_nonstandard_escape")
+                    raise wire.OutOfFragment("escape")
+                K_RT.append((pname, wire.enc_term(f),
+                             ("ok " + wire.enc_term(res[1])) if res[0] == "ok" else "err", semantic.readable(f), text))
+            except wire.OutOfFragment:
+                ctx.count("out_of_fragment")
             rep = {"printer": pname, "decls": decls, "text": text, "formula": semantic.readable(f), "wire": _enc(f)}
             if res[0] == "err":
                 sg = {"oracle": "roundtrip", "printer": pname, "kind": "parse-error", "error": res[1],
@@ -409,6 +419,17 @@ def _nodes(f):
         stack.extend(n.args())
 
 
+def _all_names(f):
+    for x in _nodes(f):
+        if x.is_symbol():
+            yield x.symbol_name()
+        elif x.is_function_application():
+            yield x.function_name().symbol_name()
+        elif x.is_quantifier():
+            for v in x.quantifier_vars():
+                yield v.symbol_name()
+
+
 def _enc(f):
     try:
         return wire.enc_term(f)
@@ -436,24 +457,31 @@ def gen_commands(rng, env, uni, fg, profile):
     has_int = "int" in uni.theories
     has_real = "real" in uni.theories
     if logic:
-        cmds.append(SmtLibCommand(smtcmd.SET_LOGIC, [get_logic_by_name(logic)]))
+        try:
+            cmds.append(SmtLibCommand(smtcmd.SET_LOGIC, [get_logic_by_name(logic)]))
+        except PysmtException:      # a logic the tree under test does not know
+            pass
     if r.random() < 0.5:
         cmds.append(SmtLibCommand(smtcmd.SET_OPTION, [":produce-models", "true"]))
     if r.random() < 0.5:
         cmds.append(SmtLibCommand(smtcmd.SET_INFO, [":status", r.choice(["sat", "unsat"])]))
     if r.random() < 0.3:
         cmds.append(SmtLibCommand(smtcmd.SET_INFO, [":source", r.choice(["a b c", "text with (parens)", "x"])]))
-    if r.random() < 0.3:
+    if r.random() < 0.2:
         cmds.append(SmtLibCommand(smtcmd.SET_OPTION, [":opt.priority", r.choice(["lex", "box", "pareto"])]))
     body = []
     used = []
     B = lambda d=3: fg.gen(BOOL, d)
     num_types = [t for t, ok in ((INT, has_int), (REAL, has_real), (BVType(4), "bv" in uni.theories)) if ok]
     num_t = lambda: r.choice(num_types)
+    omt = r.random() < 0.6
+    kinds = ["assert", "assert", "assert", "define-fun", "push", "pop", "check-sat", "get-value",
+             "reset-assertions", "get-model", "get-unsat-core", "get-assignment", "define-fun"]
+    if omt:
+        kinds += ["assert-soft", "maximize", "minimize", "minmax", "maxmin", "check-allsat", "get-objectives",
+                  "load-objective-model"]
     for _ in range(r.randint(3, 10)):
-        k = r.choice(["assert", "assert", "assert", "define-fun", "push", "pop", "check-sat", "get-value", "assert-soft",
-                      "maximize", "minimize", "minmax", "maxmin", "check-allsat", "get-objectives", "load-objective-model",
-                      "reset-assertions", "get-model", "get-unsat-core", "get-assignment", "define-fun"])
+        k = r.choice(kinds)
         if k == "assert":
             f = B(r.choice([2, 3, 4]))
             body.append(SmtLibCommand(smtcmd.ASSERT, [f]))
@@ -652,6 +680,7 @@ def run_script_roundtrip(ctx, n):
                          "serialising a constructed script raised %r" % (e,), dict(rep, commands=[c.name for c in cmds]))
             continue
         rep["text0"] = text0
+        K_SCRIPTS.append(text0)
         ctx.case(text0)
         ctx.count("scripts")
         r1 = parse_script(env, text0)
@@ -1033,6 +1062,8 @@ def run(ctx):
     warnings.simplefilter("ignore")
     quick = ctx.tier == "quick"
     lines, meta = [], []
+    del K_RT[:]
+    del K_SCRIPTS[:]
     run_witnesses(ctx)
     run_smt_roundtrip(ctx, 900 if quick else 15000)
     run_script_roundtrip(ctx, 150 if quick else 2500)
@@ -1041,12 +1072,55 @@ def run(ctx):
     run_model(ctx)
 
 
+K_RT = []
+K_SCRIPTS = []
+
+
 def run_model(ctx):
-    try:
-        import props.c09_model as km
-    except ImportError:
-        return
-    km.run(ctx)
+    """K: (printer model ; parser model) against parse(print(f)); parser model against the parsed serialisations"""
+    if K_RT:
+        lines = ["rt %s %s" % (pname, w) for pname, w, _, _, _ in K_RT]
+        try:
+            answers = ctx.lean_run_sharded("C09", lines)
+        except common.LeanError as e:
+            ctx.report_l("driver C09 does not run", str(e))
+            answers = []
+        for (pname, w, impl, rd, text), ans in zip(K_RT, answers):
+            ctx.count("k_rt_cases")
+            if ans.startswith("bad-op"):
+                ctx.infra("C09 driver rejected a request: %s" % ans)
+                continue
+            if ans == "out-of-fragment":
+                ctx.count("k_rt_out_of_fragment")
+                continue
+            m = "err" if ans.startswith("err") else ans
+            if m == impl:
+                ctx.count("k_rt_agree")
+                continue
+            ctx.report_k("parse(print(f)) [%s printer]: the models answer %s, the implementation %s for %s"
+                         % (pname, ans[:120], impl[:120], rd),
+                         {"printer": pname, "wire": w, "model": ans, "implementation": impl, "text": text})
+    if K_SCRIPTS:
+        from props import c08 as c08mod
+        try:
+            answers = ctx.lean_run_sharded("C08", ["pread " + c08mod.hx(t) for t in K_SCRIPTS])
+        except common.LeanError as e:
+            ctx.report_l("driver C08 does not run", str(e))
+            return
+        for text, ans in zip(K_SCRIPTS, answers):
+            ctx.count("k_script_cases")
+            if ans == "out-of-fragment" or ans.startswith("lex "):
+                ctx.count("k_script_" + ans.split()[0])
+                continue
+            got = c08mod.impl_answer(text)
+            if got == "out-of-fragment":
+                ctx.count("k_script_out-of-fragment")
+                continue
+            if ans == got or (ans.startswith("err") and got.startswith("err")):
+                ctx.count("k_script_agree")
+                continue
+            ctx.report_k("the parser model and SmtLibParser.get_script disagree on a serialised script: model %s, "
+                         "implementation %s" % (ans[:150], got[:150]), {"text": text, "model": ans, "implementation": got})
 
 
 def replay(ctx, rep):
